@@ -523,6 +523,23 @@ def check_C06(ctx):
                     cases.append(period_case(r, fg, cmd, tz=(zone, off), **kw)); cases.append(period_case(r, fdel, cmd, tz=(zone, off)))
                     pairs.append((len(cases) - 2, len(cases) - 1, "period %s..%s %s tz=%s (no midnight on %s there)" % (bb, ee, cmd, zone, gd)))
                     ctx.tally("tz", zone)
+        # `summary today|yesterday|DATE` on dates whose local calendar day has 25 hours and covers two UTC midnights (a zone whose offset passes through zero)
+        if ln < ctx.scale(3, 12):
+            longd = gen.long_local_days()
+            for gk in range(min(len(longd), ctx.scale(6, 36))):
+                zone, off, gd = longd[(ln * 5 + gk * 7) % len(longd)]
+                gds = [gd + datetime.timedelta(days=o) for o in (-1, 0, 1, 2)]
+                gitems = window_log(r, [(d.year, d.month, d.day) for d in gds])
+                for it_i, it in enumerate(gitems):
+                    if it[0] == "heading" and (it_i + 1 == len(gitems) or gitems[it_i + 1][0] == "heading"): gitems.insert(it_i + 1, ("entry", "bread", "1"))
+                fg = {"food.yaml": book, "log.yaml": gen.render_items(r, gitems, crlf=False, final_newline=True)}
+                for arg, offd in [("today", 0), ("yesterday", -1), (gd.strftime("%Y/%m/%d"), 0)]:
+                    sel = gd + datetime.timedelta(days=offd)
+                    keep = lambda i, sel=sel: gds[i] == sel
+                    fdel = {"food.yaml": book, "log.yaml": gen.render_items(r, delete_days(gitems, keep), crlf=False, final_newline=True)}
+                    c1 = dict(files=fg, cmd="summary", arg=arg.encode(), f_today=gd.strftime("%Y/%m/%d"), tz=(zone, off), **NOCOLOR)
+                    cases.append(c1); pairs.append((len(cases) - 1, None, (sel, gds)))
+                    ctx.tally("tz", zone)
         for d in win:
             for tz in tzs:
                 for arg, off in [(d.strftime("%Y/%m/%d"), 0), ("today", 0), ("yesterday", -1)]:
@@ -550,7 +567,7 @@ def check_C06(ctx):
     ctx.notes["exhaustive_window"] = dict(days=5, bound_pairs=36, logs=nlogs, zones=[t[0] for t in tzs])
     return dict(rule="logs over a 5-day window (plus days outside it; unsorted and repeated dates) x every (begin,end) in (absent + 5 days)^2 incl. inverted and equal x flag position "
                 "{global, sub-command, both with a different global value} x period-aware commands x time zones; keywords today/yesterday/last7/last30 against --today; summary DATE / "
-                "today / yesterday for every day x zone. Each run is compared with the extracted Coq model AND, on the implementation alone, with its own output on the file with the "
+                "today / yesterday for every day x zone, also on dates whose local calendar day has 25 hours and covers two UTC midnights (Atlantic/Azores, America/Scoresbysund). Each run is compared with the extracted Coq model AND, on the implementation alone, with its own output on the file with the "
                 "other days deleted and no period given. Non-trivial = every log (>= 4 days), distinct by bytes", extra=dict(exhaustive=True))
 
 # ---------------------------------------------------------------------------
